@@ -147,6 +147,17 @@ def fam_pipeline_fail(seed, big):
                     sc["tags"][0] = "we300000"   # (the reporting child's tag is its second argument)
                     out.append(sc)
                     i += 1
+    # the calling thread has SIGPIPE blocked and the first command ignores write errors: once the attempt has failed and
+    # its pipes are closed, only SIGPIPE -- which the child must have got back unblocked and at its default -- ends it
+    for n, k in ((2, 1), (3, 2), (3, 1)):
+        for term, stdin, stdout, stderr in (("join", "inherit", "null", "inherit"), ("popen", "inherit", "pipe", "inherit"),
+                                            ("capture", "inherit", "pipe", "capture"), ("stream_stdout", "inherit", "pipe", "inherit")):
+            sc = pl(i, n, "left", stdin, stdout, stderr, term, 0, fail_at=k, detached=False, rng=rng)
+            sc["stream"] = True
+            sc["stubborn"] = True
+            sc["mask"] = [13, 10]
+            out.append(sc)
+            i += 1
     # a started command with a stderr pipe of its own is busy writing to it while an earlier one pushes data through the
     # pipeline, when a later command fails to start
     for n, own, k in ((3, 1, 2), (4, 2, 3), (4, 1, 3), (3, 0, 1)):
